@@ -1274,6 +1274,16 @@ func (m *dsim) workspaceBackend() {
 	if seen != len(m.mods) {
 		m.violate("digest-computable", "workspace", "workspace has %d local modules, expected %d", seen, len(m.mods))
 	}
+	if m.tp.Draw("ws.cli", 2) == 1 {
+		names := make([]string, len(m.mods))
+		for i, md := range m.mods {
+			names[i] = dirs[i]
+			if strings.Contains(y.String(), "    name: "+md.name+"\n") {
+				names[i] = md.name
+			}
+		}
+		m.workspaceThroughTheCommandLine(all, dirs, names, want)
+	}
 	m.s.Probe("workspace-backend")
 	if len(root) > 0 {
 		m.s.Probe("workspace-root-license-or-doc")
